@@ -55,6 +55,8 @@ PROFILE = gen.profile(
   act_dyn=("none", "integrator", "filter", "filterexact"),
   act_trn=("joint", "joint", "jointinparent", "tendon", "site", "slidercrank"),
   timestep=(0.00390625, 0.002, 0.01),
+  p_actfrcrange=0.4,  # joint / tendon actuatorfrcrange clamps (extras stream: model structure unchanged)
+  p_actgravcomp=0.4,  # gravity compensation routed through qfrc_actuator
 )
 
 REPO_MODELS = [
